@@ -194,7 +194,7 @@ RE_VARS = re.compile(r"(\d+) variables, (\d+) clauses")
 RE_DP = re.compile(r"Runtime decision procedure: ([\d.e+-]+)s")
 RE_SYMEX = re.compile(r"Runtime (?:Symex|Convert SSA|Postprocess Equation): ([\d.e+-]+)s")
 RE_RSS = re.compile(r"VKRSS (\d+)")
-RE_VIN = re.compile(r"^\s*vin\.(b|i|f)\[(\d+)l?\]=.*\(([01 ]+)\)\s*$", re.M)
+RE_VIN = re.compile(r"^\s*vin\.(b|i|f)(?:\[(\d+)l?\])?=.*\((\{? ?[01 ,]+\}?)\)\s*$", re.M)
 
 
 def cbmc_cmd(inst, gb, trace=False):
@@ -246,12 +246,18 @@ def parse_cbmc(out, res):
 
 def extract_vin(out):
     vin = {"b": {}, "i": {}, "f": {}}
+    def conv(kind, bits):
+        v = int(bits.replace(" ", ""), 2)
+        return v - (1 << 32) if kind == "i" and v >= 1 << 31 else v
     for kind, idx, bits in RE_VIN.findall(out):
-        bits = bits.replace(" ", "")
-        v = int(bits, 2)
-        if kind == "i" and v >= 1 << 31:
-            v -= 1 << 32
-        vin[kind][int(idx)] = v
+        if idx == "":
+            # arrays beyond CBMC's field-sensitivity limit are assigned (and printed) as a whole: vin.b={ .. } ({ bits, bits, .. })
+            if "{" not in bits:
+                continue
+            for j, e in enumerate(bits.strip("{} ").split(",")):
+                vin[kind][j] = conv(kind, e)
+        elif "{" not in bits:
+            vin[kind][int(idx)] = conv(kind, bits)
     return {k: [vin[k].get(j, 0) for j in range((max(vin[k]) + 1) if vin[k] else 0)] for k in vin}
 
 
